@@ -108,6 +108,10 @@ func (p *Program) isRecursive(fn *ssa.Function) bool {
 
 // checkGuards: contract-level guards "guard call|write|read <name>: e" become obligations at the matching sites.
 func (ex *Exec) checkGuards(fr *Frame, st *State, kind, name string, pos token.Pos) {
+	ex.checkGuardsAt(fr, st, kind, name, pos, nil, nil)
+}
+
+func (ex *Exec) checkGuardsAt(fr *Frame, st *State, kind, name string, pos token.Pos, blk *ssa.BasicBlock, args []Value) {
 	if !fr.top || fr.contract == nil {
 		return
 	}
@@ -115,7 +119,24 @@ func (ex *Exec) checkGuards(fr *Frame, st *State, kind, name string, pos token.P
 		if g.Kind != kind || g.Name != name {
 			continue
 		}
+		if g.Loop > 0 {
+			in := false
+			for _, li := range fr.loops {
+				if li.number == g.Loop && blk != nil && li.blocks[blk] {
+					in = true
+				}
+			}
+			if !in {
+				continue
+			}
+		}
+		for i, a := range args {
+			fr.specEnvExtra[fmt.Sprintf("arg%d", i)] = a
+		}
 		goal := ex.specBool(fr, st, g.C)
+		for i := range args {
+			delete(fr.specEnvExtra, fmt.Sprintf("arg%d", i))
+		}
 		ex.top.oblCount["guard:"+kind+name]++
 		ex.obligeNamed(st, fmt.Sprintf("%s#guard(%s %s)%d", funcKey(ex.top.fn), kind, name, ex.top.oblCount["guard:"+kind+name]), "guard", goal, "guard at every "+kind+" of "+name+": "+g.C.Text, pos)
 	}
@@ -123,10 +144,16 @@ func (ex *Exec) checkGuards(fr *Frame, st *State, kind, name string, pos token.P
 
 func (ex *Exec) call(fr *Frame, st *State, c *ssa.CallCommon, instr ssa.Instruction) Value {
 	pos := instr.Pos()
-	if c.IsInvoke() {
-		ex.checkGuards(fr, st, "call", c.Method.Name(), pos)
-	} else if sc := c.StaticCallee(); sc != nil {
-		ex.checkGuards(fr, st, "call", sc.Name(), pos)
+	if fr.top && fr.contract != nil && len(fr.contract.Guards) > 0 {
+		var gargs []Value
+		for _, a := range c.Args {
+			gargs = append(gargs, ex.operand(fr, st, a))
+		}
+		if c.IsInvoke() {
+			ex.checkGuardsAt(fr, st, "call", c.Method.Name(), pos, instr.Block(), gargs)
+		} else if sc := c.StaticCallee(); sc != nil {
+			ex.checkGuardsAt(fr, st, "call", sc.Name(), pos, instr.Block(), gargs)
+		}
 	}
 	if b, ok := c.Value.(*ssa.Builtin); ok {
 		return ex.builtin(fr, st, b, c, pos)
